@@ -478,12 +478,15 @@ def sub_jobs(tier):
         for split in (0, 1, 2):
             for order in (0, 1):
                 for sch in (SCHEMES if tier != "quick" else [SCHEMES[(N + p + split + order) % 3]]):
-                    jobs.append({"N": N, "p": p, "split": split, "order": order, "scheme": sch})
+                    # round-robin (cyclic) placement of ranks on nodes: node members are not contiguous rank ranges
+                    for placement in (("block", "cyclic") if (tier != "quick" or (split + order) % 2 == 0) else ("block",)):
+                        jobs.append({"N": N, "p": p, "split": split, "order": order, "scheme": sch, "placement": placement})
     return jobs
 
 
 def run_sub(binary, j, seed):
-    return C.run_sim(binary, ["subbcast", j["split"], j["order"]], nodes=j["N"], ppn=j["p"], env={"YGM_COMM_ROUTING": j["scheme"]},
+    return C.run_sim(binary, ["subbcast", j["split"], j["order"]], nodes=j["N"], ppn=j["p"],
+                     env={"YGM_COMM_ROUTING": j["scheme"], "SIMMPI_PLACEMENT": j.get("placement", "block")},
                      sim_seed=seed, want_log=False, timeout=600)
 
 
@@ -506,13 +509,13 @@ def check_sub(res, j, sr):
             bad = [(o, c) for o, c in enumerate(counts) if c != 1]
             if bad:
                 res.oracle_failures.append({"what": f"world rank {r} (rank {w[4]} of a {w[2]}x{w[3]} communicator, phase {w[1]}) executed the broadcast of origin {bad[0][0]} {bad[0][1]} times, expected 1 "
-                                                    f"(world {j['N']}x{j['p']}, split {j['split']}, order {j['order']}, {j['scheme']})",
+                                                    f"(world {j['N']}x{j['p']} {j.get('placement', 'block')} placement, split {j['split']}, order {j['order']}, {j['scheme']})",
                                             "signature": "sub-bcast-count", "case": dict(j, kind="sub")})
                 return
     if nlines != 3 * j["N"] * j["p"]:
         res.corr_failures.append({"relation": "every rank reports three broadcast phases", "what": f"{nlines} lines", "case": dict(j, kind="sub")})
         return
-    res.distinct.add(("sub", j["N"], j["p"], j["split"], j["order"], j["scheme"]))
+    res.distinct.add(("sub", j["N"], j["p"], j["split"], j["order"], j["scheme"], j.get("placement")))
 
 
 def replay(data):
@@ -535,6 +538,7 @@ def replay(data):
         check_conc(res, cfg, sr, ops, CB, CMs[0], True)
     elif case.get("kind") == "sub":
         j = {k: case[k] for k in ("N", "p", "split", "order", "scheme")}
+        j["placement"] = case.get("placement", "block")
         sr = run_sub(binary, j, data.get("seed", 1))
         print("verdict", sr.verdict, sr.stderr[-300:])
         check_sub(res, j, sr)
